@@ -299,6 +299,10 @@ def run(ctx):
                         o.holds(ch, nl, f"neighbours of {j} outside this motif")
                     elif last is not None and "neighbors" in txt(first) and "-" not in txt(last):
                         o.violated(ch, nl, "members of this motif are not excluded from j's neighbours: the motif's own message is multiplied into its input")
+                    elif last is not None and isinstance(last, ast.BinOp) and isinstance(last.op, ast.Sub) and "neighbors" in (txt(first) + txt(last)) \
+                            and isinstance(last.right, (ast.Set, ast.Call)) and vmn not in txt(last.right) and astx.names_in(last.right) <= {focal, j, "set", "frozenset"}:
+                        o.violated(ch, nl, f"only `{txt(last.right)}` is removed from {j}'s neighbours, not every member of this motif (`{vmn}`): the message runs back through the other "
+                                           "members of the motif it is being computed for (for motifs of three or more vertices)", shape_free=True)
                     else:
                         o.undecided(f"neighbour domain `{txt(last) if last is not None else dom.id}` not recognised", ch, nl)
                 else:
